@@ -272,7 +272,7 @@ func checkMarching(c *vlib.Case, api string, s *fsolid, delta float64, iters int
 }
 
 func marching3(r *vlib.Run) {
-	r.Section("mc.csg", r.N(300, 2500), vlib.SectionOpts{}, func(c *vlib.Case) {
+	r.Section("mc.csg", r.N(300, 10000), vlib.SectionOpts{}, func(c *vlib.Case) {
 		rng := c.Rng
 		var s *fsolid
 		dyadic := 0.0
@@ -318,7 +318,7 @@ func marching3(r *vlib.Run) {
 		}
 	})
 	// lattice bitmaps through the search/interior variants (exact)
-	r.Section("mc.bitmaps", r.N(150, 1500), vlib.SectionOpts{}, func(c *vlib.Case) {
+	r.Section("mc.bitmaps", r.N(150, 6000), vlib.SectionOpts{}, func(c *vlib.Case) {
 		rng := c.Rng
 		n := [3]int{3 + rng.Intn(7), 3 + rng.Intn(7), 3 + rng.Intn(7)}
 		b := vlib.NewBitSolid3(C3{}, 0.5, n[0], n[1], n[2])
